@@ -193,8 +193,8 @@ pub fn mismatch_case() -> Case {
                     if i == j {
                         continue;
                     }
-                    for op in ["add", "sub", "mul", "hadamard", "mean"] {
-                        let (a, b) = (mk(*ra, 1.0), mk(*rb, 2.0));
+                    for op in ["add", "sub", "mul", "hadamard", "mean", "mean-second-operand", "mean-third-operand"] {
+                        let (a, b, same) = (mk(*ra, 1.0), mk(*rb, 2.0), mk(*ra, 3.0));
                         let res = ctx.catch(move |_| {
                             let mut a = a;
                             match op {
@@ -202,7 +202,10 @@ pub fn mismatch_case() -> Case {
                                 "sub" => a.sub_inplace(&b),
                                 "mul" => a.mul_inplace(&b),
                                 "hadamard" => a.hadamard(&b, lit(1.0)),
-                                _ => a.mean_inplace(&vec![&b]),
+                                "mean" => a.mean_inplace(&vec![&b]),
+                                // the mismatching operand is not the first one
+                                "mean-second-operand" => a.mean_inplace(&vec![&same, &b]),
+                                _ => a.mean_inplace(&vec![&same, &same, &b]),
                             }
                         });
                         ctx.fact(&format!("{}-{}-vs-{}-refused", op, ra.tag(), rb.tag()), res.is_err(), "operands of different shapes were combined".into());
